@@ -4,7 +4,8 @@ reference model."""
 from mc.common import Violation, pmap, ncpu
 from mc import hsmrun
 
-VARIANTS_ALL = [("plain", "plain"), ("instrumented", "spied"), ("queued", "spied"), ("queued", "plain")]
+VARIANTS_ALL = [("plain", "plain"), ("instrumented", "spied"), ("queued", "spied"), ("queued", "plain"),
+                ("queued_off", "spied")]
 
 
 def mixed_style(n):
